@@ -493,7 +493,10 @@ fn declare(
 			let return_type = match return_type
 			{
 				Some(return_type) => return_type.generate(llvm)?,
-
+				// The value of `main` is the exit status of the program. Without
+				// a return type it used to be whatever the last call left behind.
+				None if flags.contains(DeclarationFlag::Main) =>
+				unsafe { LLVMInt32TypeInContext(llvm.context) },
 				None =>
 				unsafe { LLVMVoidTypeInContext(llvm.context) },
 			};
@@ -712,7 +715,20 @@ impl Generatable for FunctionBody
 		else
 		{
 			unsafe {
-				LLVMBuildRetVoid(llvm.builder);
+				let block = LLVMGetInsertBlock(llvm.builder);
+				let function = LLVMGetBasicBlockParent(block);
+				let function_type = LLVMGetElementType(LLVMTypeOf(function));
+				let return_type = LLVMGetReturnType(function_type);
+				if LLVMGetTypeKind(return_type) == LLVMTypeKind::LLVMVoidTypeKind
+				{
+					LLVMBuildRetVoid(llvm.builder);
+				}
+				else
+				{
+					// A `main` without a return type ends with status 0.
+					let zero = LLVMConstInt(return_type, 0, 0);
+					LLVMBuildRet(llvm.builder, zero);
+				}
 			};
 		}
 
